@@ -711,7 +711,8 @@ pub fn run(ctx: &mut Ctx) {
         Network kinds; VectorClock; DenseNatMap; both consistency testers; ActorModelState collected along walks \
         of G2 systems (all neighbouring pairs, rebuilt copies, 8 kinds of single-component mutants). Judged: \
         description equality <=> == <=> identical hash byte stream; equal => same fingerprint. Non-trivial: >= 2 \
-        containers with >= 1 element / >= 4 distinct reachable actor-system states."
+        containers with >= 1 element / >= 4 distinct reachable actor-system states. The description of a reachable state leaves out random-choice keys \
+        with an empty option list (nothing can be selected: same as no key)."
         .into();
     ctx.assumptions = vec![
         "PartialOrd of the hashable containers (by hash) is not part of the property".into(),
